@@ -156,6 +156,20 @@ theorem durable_needs_exact :
       .introPersist 2, .snapBegin, .snapEnd true false, .commit, .ack]).map (fun s => (s.acked, s.disk.recoverK))
       = some ([1], none) := by decide
 
+/-- what a SPLIT grab would do in its second lock region: take the acknowledgements waiting NOW (not part of `step`) -/
+def lateGrabAcks (s : State) : Option State :=
+  match s.job with
+  | some j => some { s with job := some { j with acks := j.acks ++ s.waitAcks, cbs := j.cbs ++ s.waitCbs },
+                            waitAcks := [], waitCbs := [] }
+  | none => none
+
+/-- the grab must be ONE lock region: if the waiting acknowledgements were taken in a second region, a batch introduced
+in between (batch 2 below) would be acknowledged by a snapshot that does not contain it -/
+theorem split_grab_breaks_durability :
+    ((run (init 1) [.openWriter, .intro 1 (some 2) [] true false, .persistGrab, .intro 2 (some 3) [] true false]).bind fun s =>
+      (lateGrabAcks s).bind fun s => run s [.segBegin 2, .segEnd 2 true true, .introPersist 3, .snapBegin, .snapEnd true true,
+        .commit, .ack]).map (fun s => (s.acked, s.disk.recoverK)) = some ([1, 2], some 1) := by decide
+
 /-- crash and reopen in the middle of the second snapshot write: batch 1 is recovered -/
 example : (run (init 1) (demo ++ [.intro 3 (some 3) [] true false, .persistGrab, .segBegin 3, .segEnd 3 true true,
     .introPersist 4, .snapBegin, .crash, .openWriter])).map (fun s => (s.applied, s.rootEpoch, s.disk.recoverK))
